@@ -282,7 +282,21 @@ POSITIONS = [
     ("equality", "pub fn f(o: {T2}) -> Bool {{\n  o == {v1}\n}}\n"),
     ("tuple element", "pub fn f() -> ({T2}, Int) {{\n  ({v1}, 1)\n}}\n"),
     ("option payload", "pub fn f() -> Option<{T2}> {{\n  Some({v1})\n}}\n"),
+    ("generic function, one variable at two types", "fn same(x: a, _y: a) -> a {{ x }}\npub fn f(o: {T2}) -> {T2} {{\n  same(o, {v1})\n}}\n"),
+    ("pattern of another type in when", "pub fn f(o: {T2}) -> Int {{\n  when o is {{\n    {p1} -> 1\n    _ -> 0\n  }}\n}}\n"),
+    ("pattern of another type in expect", "pub fn f(o: {T2}) -> Int {{\n  expect {p1} = o\n  1\n}}\n"),
+    ("pattern of another type in let", "pub fn f(o: List<{T2}>) -> Int {{\n  when o is {{\n    [{p1}, ..] -> 1\n    _ -> 0\n  }}\n}}\n"),
+    ("higher-order argument", "fn app(g: fn({T2}) -> Int, x: {T2}) -> Int {{ g(x) }}\npub fn f(o: {T2}) -> Int {{\n  app(fn(_y: {T1}) {{ 1 }}, o)\n}}\n"),
+    ("returned lambda", "pub fn f() -> fn({T2}) -> Int {{\n  fn(_y: {T1}) {{ 1 }}\n}}\n"),
+    ("record update of a generic record at another instance", "pub type GPair<a> {{\n  l: a,\n  r: a,\n}}\n\npub fn f(b: GPair<{T2}>) -> GPair<{T2}> {{\n  GPair {{ ..b, l: {v1} }}\n}}\n"),
+    ("list tail", "pub fn f(o: List<{T2}>) -> List<{T2}> {{\n  [{v1}, ..o]\n}}\n"),
+    ("pair component", "pub fn f() -> Pair<{T2}, Int> {{\n  Pair({v1}, 1)\n}}\n"),
+    ("expect annotation on a typed value", "pub fn f(o: {T2}) -> Int {{\n  expect _x: {T1} = o\n  1\n}}\n"),
 ]
+PATTERNS = {
+    "Int": "7", "Bool": "True", "ByteArray": '#"00"', "List<Int>": "[1, ..]", "Option<Int>": "Some(_)", "Point": "Point { x: _, y: _ }",
+    "(Int, Bool)": "(_, True)", "Color": "Red",
+}
 
 
 def ill_typed_table():
@@ -297,8 +311,42 @@ def ill_typed_table():
                     continue
                 if (tys.index(t1) * 7 + tys.index(t2) * 3 + len(name)) % 4 != 0:     # a quarter of the pairs per position
                     continue
-                out.append((T + "\n" + tmpl.format(T1=t1, T2=t2, v1=VALUES[t1]), "%s: %s where %s is required" % (name, t1, t2)))
+                out.append((T + "\n" + tmpl.format(T1=t1, T2=t2, v1=VALUES[t1], p1=PATTERNS[t1]), "%s: %s where %s is required" % (name, t1, t2)))
     return out
+
+
+MISUSE = [
+    ("if on a non-Bool", "pub fn f(o: {T}) -> Int {{\n  if o {{ 1 }} else {{ 2 }}\n}}\n", {"Bool"}),
+    ("not on a non-Bool", "pub fn f(o: {T}) -> Bool {{\n  !o\n}}\n", {"Bool"}),
+    ("negation of a non-Int", "pub fn f(o: {T}) -> Int {{\n  -o\n}}\n", {"Int"}),
+    ("arithmetic on a non-Int", "pub fn f(o: {T}) -> Int {{\n  o + 1\n}}\n", {"Int"}),
+    ("comparison of non-Int", "pub fn f(o: {T}) -> Bool {{\n  o < o\n}}\n", {"Int"}),
+    ("and block with a non-Bool", "pub fn f(o: {T}) -> Bool {{\n  and {{\n    True,\n    o,\n  }}\n}}\n", {"Bool"}),
+    ("trace-if-false on a non-Bool", "pub fn f(o: {T}) -> Bool {{\n  o?\n}}\n", {"Bool"}),
+    ("calling a non-function", "pub fn f(o: {T}) -> Int {{\n  o(1)\n}}\n", set()),
+    ("tuple index on a non-tuple", "pub fn f(o: {T}) -> Int {{\n  o.1st\n}}\n", {"(Int, Bool)"}),
+    ("field access without such a field", "pub fn f(o: {T}) -> Int {{\n  o.x\n}}\n", {"Point"}),
+    ("third component of a pair tuple", "pub fn f(o: (Int, Bool)) -> Int {{\n  o.3rd\n}}\n", None),
+    ("spread of a non-list", "pub fn f(o: {T}) -> List<Int> {{\n  [1, ..o]\n}}\n", {"List<Int>"}),
+]
+
+
+def ill_typed_misuse():
+    T = ag.render_types()
+    out = []
+    for name, tmpl, ok in MISUSE:
+        if ok is None:
+            out.append((T + "\n" + tmpl, name))
+            continue
+        for t in VALUES:
+            if t not in ok:
+                out.append((T + "\n" + tmpl.format(T=t), "%s: %s" % (name, t)))
+    return out
+
+
+def well_typed_misuse_controls():
+    T = ag.render_types()
+    return [(T + "\n" + tmpl.format(T=t), "%s at %s" % (name, t)) for name, tmpl, ok in MISUSE if ok for t in ok]
 
 
 def well_typed_controls():
@@ -309,7 +357,7 @@ def well_typed_controls():
         if "Data first" in name:       # ill-typed whatever T1 is (that is its point)
             continue
         for t in ("Int", "ByteArray", "Option<Int>"):
-            out.append((T + "\n" + tmpl.format(T1=t, T2=t, v1=VALUES[t]), "%s at %s" % (name, t)))
+            out.append((T + "\n" + tmpl.format(T1=t, T2=t, v1=VALUES[t], p1=PATTERNS[t]), "%s at %s" % (name, t)))
     return out
 
 
